@@ -1,7 +1,54 @@
 (* Properties/C13.v — unknown-field trees convert to and from bytes without loss.
-   Only statements; every proof is [exact <lemma>] from Proofs/UnknownP.v. *)
+   Only statements; every proof is [exact <lemma>] from Proofs/UnknownP.v.
+
+   convert      = ConvertUnknownFields (readUnknownField with the per-member reset of the D9 repair)
+   fields_len   = UnknownFieldsLength
+   write_fields = WriteUnknownFields into a caller buffer [buf] (in place: result buffer and offset)
+   enc_fields / wf_fields / tree_of_fields : Spec/UnknownSpec.v (typed values, their Binary encoding with
+   canonical bools, the format's limits, the tree a field sequence denotes)
+   canon_fields / enc_tree_fields : canonical trees and the bytes they denote. *)
 From GV Require Import Lib.Bytes Lib.Res Gen.Consts Model.Binary Spec.Wire Model.Unknown Spec.UnknownSpec Proofs.UnknownP.
 Open Scope N_scope.
 
+(* bytes -> tree -> bytes: for EVERY non-empty sequence of well-formed encoded fields (every type, any nesting,
+   any ids, empty containers with any element tag): the conversion succeeds and yields exactly the tree the
+   sequence denotes (ids of elements = index as int16, KeyType/ValType only where meaningful), that tree is
+   canonical, the computed length is the byte count, and writing the tree into any buffer that is long
+   enough reproduces the original bytes at its start, touches nothing after them and reports their count. *)
+Theorem C13_bytes_tree_bytes : forall fs, fs <> [] -> wf_fields fs = true ->
+  let b := enc_fields fs in
+  let t := tree_of_fields fs in
+  convert b = Ok t /\ canon_fields t = true /\ fields_len t = Ok (len b) /\
+  (forall buf, len b <= len buf -> write_fields buf t = Ok (b ++ drop (len b) buf, len b)).
+Proof. exact bytes_tree_bytes. Qed.
+
+(* tree -> bytes -> tree: for EVERY non-empty canonical tree list: the length is that of the bytes written,
+   the write fills exactly that prefix of the buffer, and converting what was written gives the tree back. *)
+Theorem C13_tree_bytes_tree : forall ts, ts <> [] -> canon_fields ts = true ->
+  let b := enc_tree_fields ts in
+  fields_len ts = Ok (len b) /\
+  (forall buf, len b <= len buf -> write_fields buf ts = Ok (b ++ drop (len b) buf, len b)) /\
+  convert b = Ok ts.
+Proof. exact tree_bytes_tree. Qed.
+
+(* the type codes the statements fix are the ones the Go source declares *)
+Theorem C13_consts :
+  thrift_STOP = T_STOP /\ thrift_BOOL = T_BOOL /\ thrift_BYTE = T_BYTE /\ thrift_DOUBLE = T_DOUBLE /\
+  thrift_I16 = T_I16 /\ thrift_I32 = T_I32 /\ thrift_I64 = T_I64 /\ thrift_STRING = T_STRING /\
+  thrift_STRUCT = T_STRUCT /\ thrift_MAP = T_MAP /\ thrift_SET = T_SET /\ thrift_LIST = T_LIST.
+Proof. exact consts_ok_unknown. Qed.
+
+(* D9: the witness converts to its denotation; without the per-member reset the I32 member after the map
+   would carry the map's KeyType/ValType, and tree -> bytes -> tree would fail on the canonical tree *)
 Theorem C13_d9_regression : convert (enc_fields d9_value) = Ok (tree_of_fields d9_value).
 Proof. exact d9_repaired. Qed.
+Theorem C13_d9_without_reset_refuted :
+  convert_gen false (enc_tree_fields (tree_of_fields d9_value)) <> Ok (tree_of_fields d9_value).
+Proof. exact d9_without_reset_refuted. Qed.
+
+(* non-vacuity of the hypotheses *)
+Example C13_nonvacuous_fields : d9_value <> [] /\ wf_fields d9_value = true.
+Proof. split; [discriminate|reflexivity]. Qed.
+Example C13_nonvacuous_trees :
+  tree_of_fields d9_value <> [] /\ canon_fields (tree_of_fields d9_value) = true.
+Proof. split; [discriminate|reflexivity]. Qed.
